@@ -6,6 +6,7 @@
 -/
 import IbicusModel.Lemmas.IsimipFreq
 import IbicusModel.Lemmas.GenIsimipFreq
+import IbicusModel.Lemmas.C11Pipeline
 
 namespace Props.C11
 open Model.IsimipFreq Lemmas.IsimipFreq
@@ -259,6 +260,26 @@ theorem step6Counts_eq_round (adjust : Bool) (tl tu : Rat) (obs cmh cmf : List R
   unfold rawCounts nrToBound
   simp [maskLower, maskUpper]
 
+/-- a variable with a lower threshold only (e.g. `pr`): nothing is ever rescaled, the counts are `(round(n · P), 0)` -/
+theorem step6Counts_lower_only (adjust : Bool) (tl : Rat) (obs cmh cmf : List Rat)
+    (ho : 0 < obs.length) (hh : 0 < cmh.length) (hf : 0 < cmf.length) :
+    step6Counts adjust (some tl) none obs cmh cmf =
+      (Py.roundHalfEven ((((cmf.length : Int)) : Rat) * pFuture adjust (maskLower tl obs) (maskLower tl cmh) (maskLower tl cmf)), 0) := by
+  have v := (rawCounts_range adjust (some tl) none obs cmh cmf ho hh hf).1
+  unfold step6Counts finalCounts
+  have r2 : (rawCounts adjust (some tl) none obs cmh cmf).2 = 0 := rfl
+  have r1 : (rawCounts adjust (some tl) none obs cmh cmf).1 =
+      Py.roundHalfEven ((((cmf.length : Int)) : Rat) * pFuture adjust (maskLower tl obs) (maskLower tl cmh) (maskLower tl cmf)) := by
+    unfold rawCounts nrToBound; simp [maskLower]
+  generalize rawCounts adjust (some tl) none obs cmh cmf = raw at v r1 r2 ⊢
+  obtain ⟨a, b⟩ := raw
+  simp only at v r1 r2 ⊢
+  subst r2
+  have : ¬ (a + 0 > (cmf.length : Int)) := by omega
+  rw [if_neg this, r1]
+
+example : step6Counts true (some 1) none [0, 5, 10, 1/2] [0, 0, 8, 20] [0, 30, 100, 40, 50] = (1, 0) := by decide +kernel
+
 /-- the code computes the masks on the sorted series; the counts do not depend on the order -/
 theorem step6Counts_perm (adjust : Bool) (lthr uthr : Option Rat) (obs cmh cmf obs' cmh' cmf' : List Rat)
     (po : obs.Perm obs') (ph : cmh.Perm cmh') (pf : cmf.Perm cmf') :
@@ -332,5 +353,442 @@ theorem step6_count (adjust : Bool) (lthr uthr : Option Rat) (lo hi : Rat) (obs 
   obtain ⟨c1, c2, c3⟩ := step6Counts_valid adjust lthr uthr obs cmh cmf ho hh hf
   rw [← hxs.length_eq] at c3 hm
   exact bound_counts_strictly_inside lo hi _ _ xs mid out c1 c2 c3 hm hlohi hmid hout
+
+/-! ### What counts as a beyond-threshold event; the thresholds as instance state; missing values -/
+
+/-- **The three threshold masks partition the series** (`lower_threshold < upper_threshold`): a value is beyond the
+    lower threshold (`x ≤ t_l`, the threshold value itself included), strictly between, or beyond the upper threshold
+    (`x ≥ t_u`, included) — exactly one of the three. -/
+theorem masks_partition (tl tu : Rat) (h : tl < tu) (xs : List Rat) :
+    countTrue (maskLower tl xs) + countTrue (maskMiddle tl tu xs) + countTrue (maskUpper tu xs) = (xs.length : Int) := by
+  unfold countTrue maskLower maskMiddle maskUpper
+  induction xs with
+  | nil => simp
+  | cons a t ih =>
+    simp only [List.map_cons, List.length_cons, List.count_cons] at ih ⊢
+    by_cases h1 : a ≤ tl
+    · have h2 : ¬ a > tl := by linarith
+      have h3 : ¬ a ≥ tu := by intro h3; linarith
+      simp only [h1, h2, h3, decide_true, decide_false, Bool.false_and, beq_self_eq_true, if_true] at ih ⊢
+      push_cast at ih ⊢
+      simp at ih ⊢
+      omega
+    · by_cases h3 : a ≥ tu
+      · have h2 : a > tl := by linarith
+        have h4 : ¬ a < tu := by linarith
+        simp only [h1, h2, h3, h4, decide_true, decide_false, Bool.and_false, beq_self_eq_true, if_true] at ih ⊢
+        push_cast at ih ⊢
+        simp at ih ⊢
+        omega
+      · have h2 : a > tl := by push Not at h1; exact h1
+        have h4 : a < tu := by push Not at h3; exact h3
+        simp only [h1, h2, h3, h4, decide_true, decide_false, Bool.and_true, beq_self_eq_true, if_true] at ih ⊢
+        push_cast at ih ⊢
+        simp at ih ⊢
+        omega
+
+example : maskLower 1 [0, 1, 2, 99, 100] = [true, true, false, false, false] ∧
+    maskMiddle 1 99 [0, 1, 2, 99, 100] = [false, false, true, false, false] ∧
+    maskUpper 99 [0, 1, 2, 99, 100] = [false, false, false, true, true] := by decide +kernel
+
+/-- a value lying exactly on a threshold is a beyond-threshold event -/
+theorem on_threshold_is_beyond (t : Rat) : maskLower t [t] = [true] ∧ maskUpper t [t] = [true] := by
+  unfold maskLower maskUpper; simp
+
+/-- a series without beyond-threshold values has frequency `0` on both sides — in particular a series whose missing
+    values were imputed from reported values that are all strictly between the thresholds (the imputed values lie
+    between the smallest and the largest reported one) -/
+theorem freq_zero_of_all_between (tl tu : Rat) (xs : List Rat) (h : ∀ x ∈ xs, tl < x ∧ x < tu) :
+    freq (maskLower tl xs) = 0 ∧ freq (maskUpper tu xs) = 0 := by
+  have a : countTrue (maskLower tl xs) = 0 := by
+    unfold countTrue maskLower
+    have : (xs.map (fun x => decide (x ≤ tl))).count true = 0 := by
+      rw [List.count_eq_zero]
+      simp only [List.mem_map, decide_eq_true_eq, not_exists, not_and]
+      intro x hx hle
+      have := (h x hx).1
+      linarith
+    rw [this]; rfl
+  have b : countTrue (maskUpper tu xs) = 0 := by
+    unfold countTrue maskUpper
+    have : (xs.map (fun x => decide (x ≥ tu))).count true = 0 := by
+      rw [List.count_eq_zero]
+      simp only [List.mem_map, decide_eq_true_eq, not_exists, not_and]
+      intro x hx hge
+      have := (h x hx).2
+      linarith
+    rw [this]; rfl
+  unfold freq
+  rw [a, b]
+  simp
+
+example : ∀ x ∈ ([5, 10, 27] : List Rat), (1 : Rat) < x ∧ x < 99 := by decide +kernel
+
+/-- **Uses do not change the state**: the run of a sequence of assignments and uses is the run of its assignments -/
+theorem run_ignores_uses (s : ThrState) (es : List ThrEvent) : s.run es = s.run (es.filter (fun e => decide (e ≠ ThrEvent.use))) := by
+  unfold ThrState.run
+  induction es generalizing s with
+  | nil => rfl
+  | cons e t ih =>
+    cases e with
+    | use => simp [ThrState.step, ih]
+    | setLower a => simp [ih]
+    | setUpper a => simp [ih]
+
+/-- **Only the current attribute values matter**: whatever was constructed, assigned and used before (`es`), once both
+    thresholds have been assigned the state is the one of a freshly constructed instance with these thresholds … -/
+theorem run_after_assign (s : ThrState) (es : List ThrEvent) (a b : Option Rat) (k : Nat) :
+    s.run (es ++ [ThrEvent.setLower a, ThrEvent.setUpper b] ++ List.replicate k ThrEvent.use) = ⟨a, b⟩ := by
+  rw [run_ignores_uses]
+  simp only [List.filter_append, List.filter_replicate]
+  unfold ThrState.run
+  simp [ThrState.step]
+
+/-- … and so are the counts of every later use (the specification that a cached `has_lower_threshold` flag violates) -/
+theorem counts_after_reconfiguration (adjust : Bool) (s : ThrState) (es : List ThrEvent) (a b : Option Rat) (k : Nat)
+    (obs cmh cmf : List Rat) :
+    thrCountsOf adjust (s.run (es ++ [ThrEvent.setLower a, ThrEvent.setUpper b] ++ List.replicate k ThrEvent.use)) obs cmh cmf
+      = step6Counts adjust a b obs cmh cmf := by
+  rw [run_after_assign]; rfl
+
+example : (ThrState.mk none none).run [ThrEvent.use, ThrEvent.setLower (some 1), ThrEvent.use, ThrEvent.setUpper (some 99), ThrEvent.use]
+    = ⟨some 1, some 99⟩ := by decide +kernel
+
+/-! ### Through the whole window: `_apply_on_window` = steps 3–7 (`Model.Isimip`), counts from the ORIGINAL inputs -/
+
+section Window
+open Model.Isimip Model.Stats Lemmas.C11Pipeline
+
+/-- the property's counts for a window: `round(n · P)` per bound (rescaled if they overlap), with the frequencies of
+    the window's **original** `obs`, `cm_hist`, `cm_future` and "beyond" meaning `x ≤ lower_threshold` /
+    `x ≥ upper_threshold` -/
+def windowCounts (c : Cfg) (obs H F : List Rat) : Int × Int :=
+  step6Counts c.biasCorrectFrequencies (thrOpt c.lowerThreshold) (thrOpt c.upperThreshold) obs H F
+
+/-- steps 4, 5 and 6 of a window, with step 6's intermediate results (`applyOnWindow` without detrending returns
+    `.result` of this: `applyOnWindow_eq_windowStep6`) -/
+def windowStep6 (c : Cfg) (fam : IsiFamily) (o : Oracles) (d : Draws) (obs H F : List Rat) : Except String Step6Out :=
+  (step4 c d obs H F).bind (fun r4 => (step5 c o r4.1 r4.2.1 r4.2.2).bind
+    (fun oF => step6Full c fam o r4.1 oF r4.2.1 r4.2.2))
+
+theorem applyOnWindow_eq_windowStep6 (c : Cfg) (fam : IsiFamily) (o : Oracles) (d : Draws) (obs H F : List Rat)
+    (yO yH yF : List Int) (hd : c.detrending = false) :
+    applyOnWindow c fam o d obs H F yO yH yF = (windowStep6 c fam o d obs H F).map (·.result) := by
+  rw [Lemmas.IsimipModel.applyOnWindow_eq, Lemmas.IsimipModel.step3_of_not_detrending c o hd]
+  unfold windowStep6
+  dsimp only
+  cases step4 c d obs H F with
+  | error e => rfl
+  | ok r4 =>
+    simp only [Except.bind]
+    cases step5 c o r4.1 r4.2.1 r4.2.2 with
+    | error e => rfl
+    | ok oF =>
+      simp only [Lemmas.IsimipModel.step6_eq]
+      cases step6Full c fam o r4.1 oF r4.2.1 r4.2.2 with
+      | error e => rfl
+      | ok r => simp [Except.map, Lemmas.IsimipModel.step7_of_not_detrending c hd]
+
+/-- the counts `step6` computes (sorted arrays, extended-real thresholds) are the property's counts -/
+theorem pipeCounts_eq_windowCounts (c : Cfg) (hs : ThrSide c) (obs H F : List Rat) :
+    pipeCounts c obs H F = windowCounts c obs H F := by
+  unfold windowCounts
+  rw [step6Counts_perm _ _ _ obs H F (sortQ obs) (sortQ H) (sortQ F) (Lemmas.Stats.sortQ_perm obs).symm
+    (Lemmas.Stats.sortQ_perm H).symm (Lemmas.Stats.sortQ_perm F).symm]
+  unfold pipeCounts step6Counts rawCounts
+  rw [Lemmas.IsimipModel.takeIdx_argsort]
+  obtain ⟨h1, h2⟩ := hs
+  cases hl : c.lowerThreshold with
+  | posInf => exact absurd hl h1
+  | negInf =>
+    cases hu : c.upperThreshold with
+    | negInf => exact absurd hu h2
+    | posInf => simp [Cfg.hasLowerThreshold, Cfg.hasUpperThreshold, hl, hu, ExtRat.gtNegInf, ExtRat.ltPosInf, thrOpt]
+    | fin u =>
+      simp [Cfg.hasLowerThreshold, Cfg.hasUpperThreshold, hl, hu, ExtRat.gtNegInf, ExtRat.ltPosInf, thrOpt,
+        maskBeyondUpper_fin c u hu]
+  | fin t =>
+    cases hu : c.upperThreshold with
+    | negInf => exact absurd hu h2
+    | posInf =>
+      simp [Cfg.hasLowerThreshold, Cfg.hasUpperThreshold, hl, hu, ExtRat.gtNegInf, ExtRat.ltPosInf, thrOpt,
+        maskBeyondLower_fin c t hl]
+    | fin u =>
+      simp [Cfg.hasLowerThreshold, Cfg.hasUpperThreshold, hl, hu, ExtRat.gtNegInf, ExtRat.ltPosInf, thrOpt,
+        maskBeyondLower_fin c t hl, maskBeyondUpper_fin c u hu]
+
+/-- `step6` alone: its two counts are the property's counts of its own inputs -/
+theorem step6_counts (c : Cfg) (fam : IsiFamily) (o : Oracles) (obs obsFut H F : List Rat) (r : Step6Out)
+    (hs : ThrSide c) (h : step6Full c fam o obs obsFut H F = .ok r) : (r.nL, r.nU) = windowCounts c obs H F := by
+  rw [step6Full_counts c fam o obs obsFut H F r h, pipeCounts_eq_windowCounts c hs]
+
+/-- the property's counts depend on the series only through their beyond-threshold masks and lengths -/
+theorem windowCounts_congr (c : Cfg) (obs H F obs' H' F' : List Rat)
+    (ho : maskBeyondLower c obs' = maskBeyondLower c obs ∧ maskBeyondUpper c obs' = maskBeyondUpper c obs ∧ obs'.length = obs.length)
+    (hh : maskBeyondLower c H' = maskBeyondLower c H ∧ maskBeyondUpper c H' = maskBeyondUpper c H ∧ H'.length = H.length)
+    (hf : maskBeyondLower c F' = maskBeyondLower c F ∧ maskBeyondUpper c F' = maskBeyondUpper c F ∧ F'.length = F.length) :
+    windowCounts c obs' H' F' = windowCounts c obs H F := by
+  unfold windowCounts step6Counts rawCounts
+  rw [hf.2.2]
+  cases hl : c.lowerThreshold <;> cases hu : c.upperThreshold <;> simp only [thrOpt] <;>
+    first
+      | rfl
+      | (rw [← maskBeyondUpper_fin c _ hu, ← maskBeyondUpper_fin c _ hu, ← maskBeyondUpper_fin c _ hu,
+             ← maskBeyondUpper_fin c _ hu, ← maskBeyondUpper_fin c _ hu, ← maskBeyondUpper_fin c _ hu,
+             ← maskBeyondLower_fin c _ hl, ← maskBeyondLower_fin c _ hl, ← maskBeyondLower_fin c _ hl,
+             ← maskBeyondLower_fin c _ hl, ← maskBeyondLower_fin c _ hl, ← maskBeyondLower_fin c _ hl,
+             ho.1, ho.2.1, hh.1, hh.2.1, hf.1, hf.2.1])
+      | (rw [← maskBeyondUpper_fin c _ hu, ← maskBeyondUpper_fin c _ hu, ← maskBeyondUpper_fin c _ hu,
+             ← maskBeyondUpper_fin c _ hu, ← maskBeyondUpper_fin c _ hu, ← maskBeyondUpper_fin c _ hu,
+             ho.2.1, hh.2.1, hf.2.1])
+      | (rw [← maskBeyondLower_fin c _ hl, ← maskBeyondLower_fin c _ hl, ← maskBeyondLower_fin c _ hl,
+             ← maskBeyondLower_fin c _ hl, ← maskBeyondLower_fin c _ hl, ← maskBeyondLower_fin c _ hl,
+             ho.1, hh.1, hf.1])
+
+/-- **The counts used inside the window are the property's counts of the window's ORIGINAL inputs**: steps 3–5
+    (no detrending; step 4 under its guard `Step4Ok`; step 5 only produces the pseudo-future observations) do not
+    change any beyond-threshold frequency. -/
+theorem window_counts_original (c : Cfg) (fam : IsiFamily) (o : Oracles) (d : Draws) (obs H F : List Rat) (r : Step6Out)
+    (hs : ThrSide c) (h4 : Step4Ok c d) (h : windowStep6 c fam o d obs H F = .ok r) :
+    (r.nL, r.nU) = windowCounts c obs H F := by
+  unfold windowStep6 at h
+  cases h4' : step4 c d obs H F with
+  | error e => rw [h4'] at h; exact absurd h (by simp [Except.bind])
+  | ok r4 =>
+    rw [h4'] at h
+    simp only [Except.bind] at h
+    cases h5 : step5 c o r4.1 r4.2.1 r4.2.2 with
+    | error e => rw [h5] at h; exact absurd h (by simp)
+    | ok oF =>
+      rw [h5] at h
+      dsimp only at h
+      obtain ⟨mo, mh, mf⟩ := step4_masks c d obs H F r4 h4 h4'
+      rw [step6_counts c fam o _ _ _ _ r hs h]
+      exact windowCounts_congr c obs H F r4.1 r4.2.1 r4.2.2 mo mh mf
+
+/-- **C11 for `_apply_on_window`**: the window's output has exactly `n_l` values at the lower bound and `n_u` at the
+    upper bound, where `(n_l, n_u) = windowCounts` of the window's ORIGINAL `obs`, `cm_hist`, `cm_future`.
+    Guards, all explicit: thresholds on their proper side (`ThrSide`), step 4's draws inside their intervals and
+    `lower_threshold < upper_threshold` (`Step4Ok`), non-empty series, a bound that is actually written is finite
+    with value `lo` / `hi`, `lo ≠ hi`, and — the property's `Wet` guard — the values of the entries sent to neither
+    bound are different from both bounds. -/
+theorem window_bound_counts (c : Cfg) (fam : IsiFamily) (o : Oracles) (d : Draws) (obs H F : List Rat) (r : Step6Out)
+    (lo hi : Rat) (hs : ThrSide c) (h4 : Step4Ok c d) (h : windowStep6 c fam o d obs H F = .ok r)
+    (ho : 0 < obs.length) (hh : 0 < H.length) (hf : 0 < F.length)
+    (hlo : (lowerMask r.nL F.length).any id = true → c.lowerBound = .fin lo)
+    (hhi : (upperMask r.nU F.length).any id = true → c.upperBound = .fin hi) (hne : lo ≠ hi)
+    (hmid : ∀ v ∈ Py.selectWhere r.mappedSorted (notMask (lowerMask r.nL F.length) (upperMask r.nU F.length)),
+        v ≠ lo ∧ v ≠ hi) :
+    (r.result.count lo : Int) = (windowCounts c obs H F).1 ∧ (r.result.count hi : Int) = (windowCounts c obs H F).2 := by
+  have hcnt := window_counts_original c fam o d obs H F r hs h4 h
+  have e1 : (windowCounts c obs H F).1 = r.nL := (congrArg Prod.fst hcnt).symm
+  have e2 : (windowCounts c obs H F).2 = r.nU := (congrArg Prod.snd hcnt).symm
+  obtain ⟨v1, v2, v3⟩ := step6Counts_valid c.biasCorrectFrequencies (thrOpt c.lowerThreshold) (thrOpt c.upperThreshold)
+    obs H F ho hh hf
+  change 0 ≤ (windowCounts c obs H F).1 at v1
+  change 0 ≤ (windowCounts c obs H F).2 at v2
+  change (windowCounts c obs H F).1 + (windowCounts c obs H F).2 ≤ _ at v3
+  rw [e1] at v1 v3 ⊢
+  rw [e2] at v2 v3 ⊢
+  -- the step-6 call inside the window
+  unfold windowStep6 at h
+  cases h4' : step4 c d obs H F with
+  | error e => rw [h4'] at h; exact absurd h (by simp [Except.bind])
+  | ok r4 =>
+    rw [h4'] at h
+    simp only [Except.bind] at h
+    cases h5 : step5 c o r4.1 r4.2.1 r4.2.2 with
+    | error e => rw [h5] at h; exact absurd h (by simp)
+    | ok oF =>
+      rw [h5] at h
+      dsimp only at h
+      have lenF := (step4_masks c d obs H F r4 h4 h4').2.2.2.2
+      rw [← lenF] at hlo hhi hmid v3
+      obtain ⟨mid, hshape, hlen, hres⟩ := step6Full_shape c fam o r4.1 oF r4.2.1 r4.2.2 r lo hi h hlo hhi
+      have hsl : (sortQ r4.2.2).length = r4.2.2.length := Lemmas.Stats.sortQ_length _
+      -- the number of middle entries
+      obtain ⟨a, ha⟩ := Int.eq_ofNat_of_zero_le v1
+      obtain ⟨b, hb⟩ := Int.eq_ofNat_of_zero_le v2
+      have hab : a + b ≤ r4.2.2.length := by rw [ha, hb] at v3; exact_mod_cast v3
+      obtain ⟨k, hk⟩ : ∃ k, r4.2.2.length = a + (k + b) := ⟨r4.2.2.length - a - b, by omega⟩
+      have hcount : mid.length = k := by rw [hlen, ha, hb, hk]; exact notMask_count a b k
+      have hmidv : ∀ v ∈ mid, v ≠ lo ∧ v ≠ hi := by
+        intro v hv
+        apply hmid v
+        rw [hshape]
+        unfold assignBounds
+        rw [hsl, selectWhere_fillWhere _ _ _ _ hlen]
+        · exact hv
+        · rw [notMask_length _ _ (by rw [lowerMask_length, upperMask_length]), lowerMask_length,
+            setWhere_length _ _ _ (by rw [setWhere_length _ _ _ (by rw [lowerMask_length, hsl]), upperMask_length, hsl]),
+            setWhere_length _ _ _ (by rw [lowerMask_length, hsl]), hsl]
+      have hperm : r.result.Perm (assignBounds lo hi r.nL r.nU (sortQ r4.2.2) mid) := by
+        rw [hres, ← hshape]
+        apply takeIdx_rankOf_perm
+        rw [hshape]
+        unfold assignBounds
+        rw [Lemmas.C11Pipeline.fillWhere_length,
+          setWhere_length _ _ _ (by rw [setWhere_length _ _ _ (by rw [lowerMask_length]), upperMask_length]),
+          setWhere_length _ _ _ (by rw [lowerMask_length]), hsl]
+      exact bound_counts lo hi r.nL r.nU (sortQ r4.2.2) mid r.result v1 v2 (by rw [hsl]; exact v3)
+        (by rw [hsl, hcount, ha, hb, hk]; push_cast; ring) hne hmidv hperm
+
+/-- the same for a variable with a lower threshold only (e.g. `pr`: upper bound and threshold infinite):
+    exactly `n_l` outputs at the lower bound, guard: the mapped values are above the bound -/
+theorem window_lower_count (c : Cfg) (fam : IsiFamily) (o : Oracles) (d : Draws) (obs H F : List Rat) (r : Step6Out)
+    (lo : Rat) (hs : ThrSide c) (h4 : Step4Ok c d) (h : windowStep6 c fam o d obs H F = .ok r)
+    (ho : 0 < obs.length) (hh : 0 < H.length) (hf : 0 < F.length)
+    (hlo : c.lowerBound = .fin lo) (hup : c.upperThreshold = .posInf)
+    (hmid : ∀ v ∈ Py.selectWhere r.mappedSorted (notMask (lowerMask r.nL F.length) (upperMask r.nU F.length)), lo < v) :
+    (r.result.count lo : Int) = (windowCounts c obs H F).1 := by
+  have hcnt := window_counts_original c fam o d obs H F r hs h4 h
+  have hU : r.nU = 0 := by
+    have e : r.nU = (windowCounts c obs H F).2 := congrArg Prod.snd hcnt
+    rw [e]
+    unfold windowCounts step6Counts
+    rw [hup]
+    have v := (rawCounts_range c.biasCorrectFrequencies (thrOpt c.lowerThreshold) (thrOpt .posInf) obs H F ho hh hf).1
+    have r2 : (rawCounts c.biasCorrectFrequencies (thrOpt c.lowerThreshold) (thrOpt .posInf) obs H F).2 = 0 := rfl
+    generalize rawCounts c.biasCorrectFrequencies (thrOpt c.lowerThreshold) (thrOpt .posInf) obs H F = raw at v r2 ⊢
+    dsimp only
+    rw [r2]
+    unfold finalCounts
+    split_ifs with hc
+    · exfalso; omega
+    · rfl
+  refine (window_bound_counts c fam o d obs H F r lo (lo - 1) hs h4 h ho hh hf (fun _ => hlo) ?_ (by linarith) ?_).1
+  · intro hany
+    rw [hU, Lemmas.IsimipModel.upperMask_zero] at hany
+    simp at hany
+  · intro v hv
+    have := hmid v hv
+    constructor <;> linarith
+
+/-- the guard of step 4 in the form numpy's draw intervals give it: finite thresholds `tl < tu`, lower draws `≤ tl`
+    (they come from `[lower_bound, lower_threshold)`), upper draws `≥ tu` (from `[upper_threshold, upper_bound)`) -/
+theorem step4Ok_of_fin (c : Cfg) (d : Draws) (tl tu : Rat) (hl : c.lowerThreshold = .fin tl) (hu : c.upperThreshold = .fin tu)
+    (hlt : tl < tu) (hlow : ∀ r ∈ d.lowO ++ d.lowH ++ d.lowF, r ≤ tl) (hup : ∀ r ∈ d.upO ++ d.upH ++ d.upF, r ≥ tu) :
+    Step4Ok c d where
+  sep := by
+    intro v hv
+    rw [hl] at hv; rw [hu]
+    simp only [ExtRat.leOf, ExtRat.geOf, decide_eq_true_eq, decide_eq_false_iff_not, not_le] at hv ⊢
+    linarith
+  low := by intro r hr; rw [hl]; simpa [ExtRat.leOf] using hlow r hr
+  up := by intro r hr; rw [hu]; simpa [ExtRat.geOf] using hup r hr
+
+/-- … and for a variable with a lower threshold only -/
+theorem step4Ok_of_lower_only (c : Cfg) (d : Draws) (tl : Rat) (hl : c.lowerThreshold = .fin tl) (hu : c.upperThreshold = .posInf)
+    (hlow : ∀ r ∈ d.lowO ++ d.lowH ++ d.lowF, r ≤ tl) (hup : d.upO ++ d.upH ++ d.upF = []) : Step4Ok c d where
+  sep := by intro v _; rw [hu]; rfl
+  low := by intro r hr; rw [hl]; simpa [ExtRat.leOf] using hlow r hr
+  up := by intro r hr; rw [hup] at hr; simp at hr
+
+/-! a concrete window (relative humidity in percent, thresholds 1 / 99, bounds 0 / 100): every hypothesis of
+    `window_bound_counts` holds and the conclusion is non-trivial (one value at each bound out of five) -/
+namespace Example
+def cfg : Cfg :=
+  { trendMethod := TrendMethod.bounded
+    nonparametricQm := true
+    detrending := false
+    lowerBound := ExtRat.fin 0
+    lowerThreshold := ExtRat.fin 1
+    upperBound := ExtRat.fin 100
+    upperThreshold := ExtRat.fin 99 }
+def draws : Draws := { lowO := [1/4, 3/4], lowH := [1/8, 1/2], lowF := [1/3], upF := [199/2] }
+def obs : List Rat := [0, 5, 10, 1/2]
+def cmHist : List Rat := [0, 0, 8, 20]
+def cmFuture : List Rat := [0, 30, 100, 40, 50]
+
+example : ThrSide cfg := by decide
+example : Step4Ok cfg draws :=
+  step4Ok_of_fin cfg draws 1 99 rfl rfl (by norm_num) (by decide +kernel) (by decide +kernel)
+-- the kernel cannot evaluate `List.mergeSort` on two or more elements (well-founded recursion), so the run of this
+-- five-value window is checked by the model driver at run time (`DrvIsimip`, op `window`, called from harness/c11.py);
+-- in the kernel: its counts (next line) and a complete one-value window with all hypotheses of `window_bound_counts`
+example : windowCounts cfg obs cmHist cmFuture = (1, 1) := by decide +kernel
+def draws1 : Draws := { lowO := [1/2], lowF := [1/4] }
+example : Step4Ok cfg draws1 := step4Ok_of_fin cfg draws1 1 99 rfl rfl (by norm_num) (by decide +kernel) (by decide +kernel)
+example : (windowStep6 cfg ratSigmoid {} draws1 [0] [5] [0]).toOption.map
+    (fun r => (r.nL, r.nU, r.mappedSorted, r.result)) = some (1, 0, [0], [0]) := by decide +kernel
+example : windowCounts cfg [0] [5] [0] = (1, 0) := by decide +kernel
+end Example
+
+/-! ### Month mode: the same statement for every calendar month of the assembled result -/
+
+/-- the window result `_apply_on_window` returns has one value per value of the window's `cm_future` -/
+theorem windowStep6_result_length (c : Cfg) (fam : IsiFamily) (o : Oracles) (d : Draws) (obs H F : List Rat) (r : Step6Out)
+    (h4 : Step4Ok c d) (h : windowStep6 c fam o d obs H F = .ok r) : r.result.length = F.length := by
+  unfold windowStep6 at h
+  cases h4' : step4 c d obs H F with
+  | error e => rw [h4'] at h; exact absurd h (by simp [Except.bind])
+  | ok r4 =>
+    rw [h4'] at h
+    simp only [Except.bind] at h
+    cases h5 : step5 c o r4.1 r4.2.1 r4.2.2 with
+    | error e => rw [h5] at h; exact absurd h (by simp)
+    | ok oF =>
+      rw [h5] at h
+      dsimp only at h
+      rw [Lemmas.IsimipModel.step6Full_result_length c fam o _ _ _ _ r h]
+      exact (step4_masks c d obs H F r4 h4 h4').2.2.2.2
+
+/-- **C11 in month mode** (`apply_location` with `running_window_mode = False`, here the loop over the twelve months
+    with the real window function `winFn`): for every calendar month `m`, the values the assembled result holds at the
+    positions of month `m` contain exactly `n_l` lower-bound and `n_u` upper-bound values, with
+    `(n_l, n_u) = windowCounts` of the **month-`m` samples of the original series** — the months are taken from the
+    month labels that were passed in (`mO`, `mH`, `mF`), other months have no influence.
+    Guards: as `window_bound_counts`, for the window of month `m`. -/
+theorem month_mode_bound_counts (c : Cfg) (fam : IsiFamily) (orc : List Nat → Oracles) (drw : List Nat → Draws)
+    (yO yH yF mO mH mF : List Int) (obs H F : List Rat) (out : List (Option Rat)) (m : Int) (r : Step6Out) (lo hi : Rat)
+    (hrun : Model.Skeleton.applyLocationMonths (winFn c fam orc drw yO yH yF) mO mH mF obs H F = .ok out)
+    (hlen : mF.length = F.length) (hm : m ∈ Py.arange1 1 13) (hd : c.detrending = false)
+    (hs : ThrSide c)
+    (h4 : Step4Ok c (drw (Py.whereTrue (mF.map (fun x => decide (x = m))))))
+    (hr : windowStep6 c fam (orc (Py.whereTrue (mF.map (fun x => decide (x = m)))))
+            (drw (Py.whereTrue (mF.map (fun x => decide (x = m)))))
+            (Model.Skeleton.take obs (Py.whereTrue (mO.map (fun x => decide (x = m)))))
+            (Model.Skeleton.take H (Py.whereTrue (mH.map (fun x => decide (x = m)))))
+            (Model.Skeleton.take F (Py.whereTrue (mF.map (fun x => decide (x = m))))) = .ok r)
+    (ho : 0 < (Model.Skeleton.take obs (Py.whereTrue (mO.map (fun x => decide (x = m))))).length)
+    (hh : 0 < (Model.Skeleton.take H (Py.whereTrue (mH.map (fun x => decide (x = m))))).length)
+    (hf : 0 < (Model.Skeleton.take F (Py.whereTrue (mF.map (fun x => decide (x = m))))).length)
+    (hlo : (lowerMask r.nL (Model.Skeleton.take F (Py.whereTrue (mF.map (fun x => decide (x = m))))).length).any id = true →
+              c.lowerBound = .fin lo)
+    (hhi : (upperMask r.nU (Model.Skeleton.take F (Py.whereTrue (mF.map (fun x => decide (x = m))))).length).any id = true →
+              c.upperBound = .fin hi)
+    (hne : lo ≠ hi)
+    (hmid : ∀ v ∈ Py.selectWhere r.mappedSorted
+        (notMask (lowerMask r.nL (Model.Skeleton.take F (Py.whereTrue (mF.map (fun x => decide (x = m))))).length)
+                 (upperMask r.nU (Model.Skeleton.take F (Py.whereTrue (mF.map (fun x => decide (x = m))))).length)),
+        v ≠ lo ∧ v ≠ hi) :
+    (((Model.Skeleton.take out (Py.whereTrue (mF.map (fun x => decide (x = m))))).count (some lo) : Nat) : Int)
+        = (windowCounts c (Model.Skeleton.take obs (Py.whereTrue (mO.map (fun x => decide (x = m)))))
+            (Model.Skeleton.take H (Py.whereTrue (mH.map (fun x => decide (x = m)))))
+            (Model.Skeleton.take F (Py.whereTrue (mF.map (fun x => decide (x = m)))))).1 ∧
+    (((Model.Skeleton.take out (Py.whereTrue (mF.map (fun x => decide (x = m))))).count (some hi) : Nat) : Int)
+        = (windowCounts c (Model.Skeleton.take obs (Py.whereTrue (mO.map (fun x => decide (x = m)))))
+            (Model.Skeleton.take H (Py.whereTrue (mH.map (fun x => decide (x = m)))))
+            (Model.Skeleton.take F (Py.whereTrue (mF.map (fun x => decide (x = m)))))).2 := by
+  obtain ⟨res, hres, htake⟩ := months_block_take _ mO mH mF obs H F out hrun hlen m hm
+  generalize hiO : Py.whereTrue (mO.map (fun x => decide (x = m))) = iO at *
+  generalize hiH : Py.whereTrue (mH.map (fun x => decide (x = m))) = iH at *
+  generalize hiF : Py.whereTrue (mF.map (fun x => decide (x = m))) = iF at *
+  -- the window function of month `m` is `windowStep6 … |>.result`
+  unfold winFn at hres
+  rw [applyOnWindow_eq_windowStep6 _ _ _ _ _ _ _ _ _ _ hd, hr] at hres
+  simp only [Except.map] at hres
+  injection hres with hres
+  subst hres
+  have hvalid : ∀ j ∈ iF, j < F.length := by
+    intro j hj
+    rw [← hiF, Lemmas.Windows.mem_whereTrue, List.length_map] at hj
+    rw [← hlen]; exact hj.1
+  have hl : r.result.length = iF.length := by
+    rw [windowStep6_result_length c fam _ _ _ _ _ r h4 hr, take_length_valid F iF hvalid]
+  rw [htake hl, List.count_map_of_injective _ _ (Option.some_injective _), List.count_map_of_injective _ _ (Option.some_injective _)]
+  exact window_bound_counts c fam _ _ _ _ _ r lo hi hs h4 hr ho hh hf hlo hhi hne hmid
+
+end Window
 
 end Props.C11
